@@ -142,10 +142,11 @@ def corner_population(date, rnd, tid):
         # reduced earning capacity (Erwerbsminderungsrente is a default target): fully / partially, pension started this year or
         # up to 15 years ago (young retirement ages), with and without the 36 months of compulsory contributions
         year = gs.year_of(date)
-        prof = {"voll_erwerbsgemind": lambda i, r, d, rr: d["alter"] >= 18 and rr.random() < 0.5,
-                "teilw_erwerbsgemind": lambda i, r, d, rr: d["alter"] >= 18 and not d["voll_erwerbsgemind"] and rr.random() < 0.7,
+        # (the assessment period of the pension starts at the age of 17: a pension start before 20 is not a valid input)
+        prof = {"voll_erwerbsgemind": lambda i, r, d, rr: d["alter"] >= 21 and rr.random() < 0.5,
+                "teilw_erwerbsgemind": lambda i, r, d, rr: d["alter"] >= 21 and not d["voll_erwerbsgemind"] and rr.random() < 0.7,
                 "rentner": lambda i, r, d, rr: d["alter"] >= 18 and (d["voll_erwerbsgemind"] or d["teilw_erwerbsgemind"] or d["rentner"]),
-                "jahr_renteneintr": lambda i, r, d, rr: (year - rr.choice([0, 0, 1, 5, 15][: (3 if d["alter"] < 25 else 5)])) if (d["voll_erwerbsgemind"] or d["teilw_erwerbsgemind"]) else d["jahr_renteneintr"],
+                "jahr_renteneintr": lambda i, r, d, rr: (year - rr.choice([k_ for k_ in (0, 0, 1, 5, 15) if d["alter"] - k_ >= 20])) if (d["voll_erwerbsgemind"] or d["teilw_erwerbsgemind"]) else d["jahr_renteneintr"],
                 "m_pflichtbeitrag": lambda i, r, d, rr: rr.choice([0.0, 35.0, 36.0, 60.0, 240.0]) if d["alter"] >= 18 else 0.0,
                 "bruttolohn_m": lambda i, r, d, rr: rr.choice([0.0, 0.0, 450.0, 1500.0]) if d["alter"] >= 18 else 0.0}
     P = popgen.compose(structs, date, rnd, profile=prof)
@@ -203,7 +204,12 @@ def job(j):
             continue
         r = res[rhs].to_numpy() if isinstance(rhs, str) else rhs
         events.append({"k": "cap", "name": name, "lhs": pool.column(res[lhs].to_numpy().astype(float)), "factor": dec(factor), "rhs": pool.column(np.asarray(r, dtype=float)), "slack": dec(slack)})
-        meta.append({"node": lhs, "cap": name})
+        m_ = {"node": lhs, "cap": name}
+        if lhs.startswith("arbeitsl_geld_2_") and "arbeitsl_geld_2_eink_m_bg" in res:
+            # root-cause tag for the known finding: do all rows above the cap have a NEGATIVE SGB II income of the needs unit?
+            over = res[lhs].to_numpy().astype(float) * factor > np.asarray(r, dtype=float) + slack
+            m_["sgb2_income_negative"] = bool(over.any() and (res["arbeitsl_geld_2_eink_m_bg"].to_numpy()[over] < 0).all())
+        meta.append(m_)
     tf, of = f"{work}/b_{tid}.json", f"{work}/b_{tid}.out.json"
     tlc.write_json(tf, {"pool": pool.items, "events": events})
     r = tlc.run("Trace_Bounds", "Trace_Bounds.cfg", workdir=work, env={"TRACE_FILE": tf, "OUT_FILE": of}, timeout=1800)
@@ -238,8 +244,7 @@ def run(tier):
         chk.notes["trace_tlc_states"] = chk.notes.get("trace_tlc_states", 0) + info["tlc_states"]
         chk.distinct(f"{info['date']}:{info['mode']}:{info['tid']}")
         for m, clause in info["bad"]:
-            neg = any(float(p.get(k, 0.0) or 0.0) < 0 for p in info["persons"] for k in ("eink_vermietung_m", "eink_selbst_m", "kapitaleink_brutto_m", "sonstig_eink_m", "bruttolohn_m"))
-            sig = f"C16|{clause}|node={m['node']}" + (f"|cap={m['cap']}|negative_income_input={'yes' if neg else 'no'}" if "cap" in m else "")
+            sig = f"C16|{clause}|node={m['node']}" + (f"|cap={m['cap']}" if "cap" in m else "") + (f"|sgb2_income_negative={'yes' if m['sgb2_income_negative'] else 'no'}" if "sgb2_income_negative" in m else "")
             if sig in seen:
                 continue
             seen.add(sig)
